@@ -454,3 +454,42 @@ pub proof fn lemma_dec_enc_buf(b: Seq<u8>, tail: Seq<u8>)
     let s = enc_buf(b) + tail;
     assert(s.subrange(e.len() as int, (e.len() + b.len()) as int) =~= b);
 }
+
+// ---------------------------------------------------------------------------------------------
+// sequence bookkeeping shared by the composite decoders
+// ---------------------------------------------------------------------------------------------
+/// consuming a prefix of a suffix is consuming a prefix
+pub proof fn lemma_suffix_trans(a: Seq<u8>, b: Seq<u8>)
+    requires
+        suffix_of(a, b),
+    ensures
+        forall|c: Seq<u8>| #[trigger] suffix_of(b, c) ==> suffix_of(a, c),
+{
+    let j = choose|j: nat| j <= a.len() && b == #[trigger] a.skip(j as int);
+    assert forall|c: Seq<u8>| #[trigger] suffix_of(b, c) implies suffix_of(a, c) by {
+        let i = choose|i: nat| i <= b.len() && c == #[trigger] b.skip(i as int);
+        assert(a.skip(j as int).skip(i as int) =~= a.skip((j + i) as int));
+    }
+}
+
+pub proof fn lemma_suffix_skip(a: Seq<u8>, k: nat)
+    requires
+        k <= a.len(),
+    ensures
+        suffix_of(a, a.skip(k as int)),
+        suffix_of(a, a),
+{
+    assert(a.skip(0) =~= a);
+}
+
+/// skipping k and then k2 bytes is skipping k + k2
+pub proof fn lemma_skip_skip_all(s: Seq<u8>, k: nat)
+    requires
+        k <= s.len(),
+    ensures
+        forall|k2: nat| k2 <= s.skip(k as int).len() ==> #[trigger] s.skip(k as int).skip(k2 as int) == s.skip((k + k2) as int),
+{
+    assert forall|k2: nat| k2 <= s.skip(k as int).len() implies #[trigger] s.skip(k as int).skip(k2 as int) == s.skip((k + k2) as int) by {
+        assert(s.skip(k as int).skip(k2 as int) =~= s.skip((k + k2) as int));
+    }
+}
